@@ -107,6 +107,22 @@ def make_cases(ctx):
         for skey in (None, "rsa"):
             yield "early-%s-%s" % (where, skey), dict(mode="early",
                                                       where=where, skey=skey)
+    # connection level, directed: unprotected records spliced into an open
+    # connection of every version (TLS 1.3 with and without HelloRetryRequest)
+    seen = set()
+    for sid, ver, etm in ks:
+        k = (tuple(ver), suites.TABLE[sid].cipher_kind in ("cbc",))
+        if k in seen:
+            continue
+        seen.add(k)
+        for hrr_ in ((False, True) if tuple(ver) == (3, 4) else (False,)):
+            for direction in ("c2s", "s2c"):
+                for mut in ("ins_plain_ccs", "ins_plain_alert",
+                            "ins_plain_app"):
+                    yield "connd-%04x-%d%d-%s-%s-%d" % (
+                        sid, ver[0], ver[1], direction, mut, hrr_), dict(
+                        mode="conn", sid=sid, ver=ver, etm=etm, i=1,
+                        mut=mut, dir=direction, hrr=hrr_)
     # connection level
     n = ctx.pick(40, 600)
     for i in range(n):
@@ -828,8 +844,17 @@ def run_conn(ctx, cid, P):
     direction = rng.choice(["c2s", "s2c"])
     mut = rng.choice(["flip_body", "flip_body", "flip_type", "flip_len",
                       "trunc", "extend", "replay", "drop", "swap",
-                      "flip_version"])
+                      "flip_version", "ins_plain_ccs", "ins_plain_alert",
+                      "ins_plain_app"])
+    if P.get("mut"):
+        mut, direction = P["mut"], P["dir"]
     held = []
+    # TLS 1.3: every third case reaches the connection through a
+    # HelloRetryRequest (the compatibility ChangeCipherSpec is then sent
+    # earlier, and tolerance for it must end with the handshake all the same)
+    hrr = ver == (3, 4) and P.get("i", 0) % 3 == 0
+    if "hrr" in P:
+        hrr = P["hrr"]
 
     def mitm(rec, idx):
         if not state["armed"] or rec.dir != direction or rec.type != 23:
@@ -843,6 +868,12 @@ def run_conn(ctx, cid, P):
             return None
         if n == 1:
             state["done"] = True
+            if mut.startswith("ins_plain_"):
+                body = {"ins_plain_ccs": (20, b"\x01"),
+                        "ins_plain_alert": (21, b"\x01\x00"),
+                        "ins_plain_app": (23, b"spliced")}[mut]
+                return bytes([body[0]]) + bytes(raw[1:3]) + \
+                    len(body[1]).to_bytes(2, "big") + body[1] + bytes(raw)
             if mut == "flip_body" and len(raw) > 5:
                 raw[5 + rng.randrange(len(raw) - 5)] ^= 1 << rng.randrange(8)
             elif mut == "flip_type":
@@ -874,14 +905,18 @@ def run_conn(ctx, cid, P):
             return bytes(raw) + held[0]
         return None
 
-    fl = suites.flavor_for(P["sid"], ver,
-                           cset_kw=dict(useEncryptThenMAC=P["etm"]),
+    ckw = dict(useEncryptThenMAC=P["etm"])
+    if hrr:
+        ckw["keyShares"] = []
+    fl = suites.flavor_for(P["sid"], ver, cset_kw=ckw,
                            sset_kw=dict(useEncryptThenMAC=P["etm"]))
     p = Pair(mitm=mitm)
     tc, ts = p.handshake(fl)
     if tc.status != "done" or ts.status != "done":
         ctx.inconc("control handshake failed for %s" % cid)
         return
+    if hrr:
+        ctx.count("conn_after_hello_retry")
     snd, rcv = (p.c, p.s) if direction == "c2s" else (p.s, p.c)
     ssock, rsock = (p.csock, p.ssock) if direction == "c2s" else \
         (p.ssock, p.csock)
